@@ -61,7 +61,7 @@ inductive Out where
 structure Inp where
   kind : Kind
   key : Str                 -- revoke: the serial
-  rec : RevRec              -- revoke: the record it stores
+  record : RevRec           -- revoke: the record it stores
   now : Nat                 -- the clock reading of step 3
   deriving Repr, DecidableEq
 
@@ -93,8 +93,8 @@ def step (g : G) (r : Req) : G × Req :=
     match r.inp.kind with
     | .gen => (g, { r with pc := 1 })
     | .revoke gor =>
-      if (casNil g.revoked r.inp.key r.inp.rec).2 then
-        ({ g with revoked := (casNil g.revoked r.inp.key r.inp.rec).1 },
+      if (casNil g.revoked r.inp.key r.inp.record).2 then
+        ({ g with revoked := (casNil g.revoked r.inp.key r.inp.record).1 },
          if gor then { r with pc := 1 } else { r with pc := 6, out := .ok })
       else (g, { r with out := .already })
   | 1 =>
